@@ -63,7 +63,7 @@ def beginClose (w : World τ) (a : ActId) (fs : List (Frame τ)) (s : ScopeId)
   let (w, ok) := match sc.notification, sc.interrupt, sc.activity with
     | some n, some i, some act => w.unsubscribe n act i
     | _, _, _ => (w, true)
-  if !ok then w.raiseNew a fs .valueError
+  if !ok then (w.emitScope a s "sexit" [sc.name, sc.inst, 1]).raiseNew a fs .valueError
   else
     let w := w.setScope s (fun x => { x with interruptable := false })
     let w := w.revoke sc.cancelSelf
@@ -88,7 +88,7 @@ def continueClose (w : World τ) (a : ActId) (fs : List (Frame τ)) (s : ScopeId
         let w := w.setAct r (fun x => { x with status := .running })
         let (w, ge) := w.newExn .genExit
         { w with ctl := (r, .raise ge) :: w.ctl }
-      | .running => w.raiseNew a (fr :: fs) .valueError
+      | .running => (w.emitScope a s "sexit" [(w.scope s).name, (w.scope s).inst, 1]).raiseNew a fs .valueError
       | _ => w.retTo a (fr :: fs) .unit
   | [] =>
     if !volDone then
@@ -96,11 +96,12 @@ def continueClose (w : World τ) (a : ActId) (fs : List (Frame τ)) (s : ScopeId
       w.retTo a (.scopeClose s (w.scope s).volatileChildren reason' true orig graceful :: fs) .unit
     else
       let (w, p) := w.propagateExceptions s orig
+      let sx (w : World τ) (code : Int) : World τ := w.emitScope a s "sexit" [(w.scope s).name, (w.scope s).inst, code]
       match p, orig with
-      | .swallow, _ => w.retTo a fs .unit
-      | .reraise, some e => w.raiseTo a fs e
-      | .reraise, none => w.retTo a fs .unit
-      | .raiseOther x, _ => w.raiseTo a fs x
+      | .swallow, _ => (sx w 0).retTo a fs .unit
+      | .reraise, some e => (sx w 1).raiseTo a fs e
+      | .reraise, none => (sx w 0).retTo a fs .unit
+      | .raiseOther x, _ => (sx w 1).raiseTo a fs x
 
 
 /-! ### locks, streams, tracked values, resources, pipes: synchronous parts -/
@@ -116,8 +117,8 @@ def queueGetEnter (w : World τ) (a : ActId) (fs : List (Frame τ)) (q : Name) :
 def lockAcquired (w : World τ) (a : ActId) (fs : List (Frame τ)) (l : Name) (cont : LockCont τ) : World τ :=
   let w := { w with locks := w.locks.modify l (fun x => { x with depth := x.depth + 1 }) }
   match cont with
-  | .body stmts => w.retTo a (.seq stmts :: .lockBody l :: fs) .unit
-  | .queueGet q => w.queueGetEnter a (.lockBody l :: fs) q
+  | .body stmts => (w.emit a "lenter" [l]).retTo a (.seq stmts :: .lockBody l true :: fs) .unit
+  | .queueGet q => w.queueGetEnter a (.lockBody l false :: fs) q
 
 /-- `Lock.__aenter__` (locks.py:58-73) -/
 def acquireLock (w : World τ) (a : ActId) (fs : List (Frame τ)) (l : Name) (cont : LockCont τ) : World τ :=
@@ -233,7 +234,7 @@ def execStmt (w : World τ) (a : ActId) (fs : List (Frame τ)) : Stmt τ → Wor
       w.doNotifAwait a fs c
   | .awaitC c =>
     match w.buildCond c with
-    | some (w, cid) => w.doCondAwait a fs cid
+    | some (w, cid) => w.doCondAwait a (.awaitMark cid :: fs) cid
     | none => w.raiseNew a fs .notImplemented
   | .setFlag f b =>                                                   -- flag.py Flag.set
     match lookup w.flagIds f with
@@ -267,15 +268,16 @@ def execStmt (w : World τ) (a : ActId) (fs : List (Frame τ)) : Stmt τ → Wor
       let (w, intr) := match notif with
         | some _ => let (w, i) := w.newSig (.scopeInterrupt sid); (w, some i)
         | none => (w, none)
-      let sc : Scope := { bodyDone := bd, cancelSelf := cs, activity := some a, notification := notif, interrupt := intr }
-      let w := { w with scopes := w.scopes.push sc,
+      let sc : Scope := { bodyDone := bd, cancelSelf := cs, activity := some a, notification := notif, interrupt := intr,
+                          name := name, inst := w.scopeInsts, silent := name ≥ 100000 }
+      let w := { w with scopes := w.scopes.push sc, scopeInsts := if name ≥ 100000 then w.scopeInsts else w.scopeInsts + 1,
                         scopeNames := (name, sid) :: w.scopeNames.filter (·.1 != name) }
       -- InterruptScope.__aenter__: subscribe the interrupt
       let w' := match notif, intr with
         | some n, some i => w.subscribe n a i
         | _, _ => some w
       match w' with
-      | some w => w.retTo a (.seq body :: .scopeBody sid :: fs) .unit
+      | some w => (w.emitScope a sid "senter" [name, (w.scope sid).inst]).retTo a (.seq body :: .scopeBody sid :: fs) .unit
       | none => w.raiseNew a fs (.assertion 1)
   | .spawn scope task prog after at_ volatile =>                       -- context.py Scope.do
     match lookup w.scopeNames scope with
@@ -304,7 +306,7 @@ def execStmt (w : World τ) (a : ActId) (fs : List (Frame τ)) : Stmt τ → Wor
           let w := w.scheduleNow r none
           let w := if volatile then w.setScope sid (fun x => { x with volatileChildren := x.volatileChildren ++ [tid] })
                    else w.setScope sid (fun x => { x with children := x.children ++ [tid] })
-          w.retTo a fs .unit
+          (w.emitScope a sid "spawn" [(w.scope sid).inst, 1000 + tid, if volatile then 1 else 0]).retTo a fs .unit
   | .cancel task tok =>                                                -- task.py Task.cancel
     match lookup w.taskNames task with
     | none => (w.emit a "unbound" []).retTo a fs .unit
@@ -338,7 +340,7 @@ def execStmt (w : World τ) (a : ActId) (fs : List (Frame τ)) : Stmt τ → Wor
     match fs with
     | _ :: below => w.retTo a (.retVal v :: below) .unit
     | [] => w.retTo a fs (.int v)
-  | .withLock l body => w.acquireLock a fs l (.body body)
+  | .withLock l body => (w.emit a "lreq" [l]).acquireLock a fs l (.body body)
   | .logAvail l =>
     let lk := w.locks.getD l default
     let av := match lk.owner with
@@ -347,12 +349,13 @@ def execStmt (w : World τ) (a : ActId) (fs : List (Frame τ)) : Stmt τ → Wor
     (w.emit a "avail" [if av then 1 else 0]).retTo a fs .unit
   | .qPut q v =>                                                       -- streams.py Queue.put
     let qu := w.queues.getD q default
-    if qu.closed then w.raiseNew a fs .streamClosed
+    let w := w.emit a "putreq" [q, v]
+    if qu.closed then (w.emit a "putrej" [q, v]).raiseNew a fs .streamClosed
     else
       let w := { w with queues := w.queues.modify q (fun x => { x with buffer := x.buffer ++ [v] }) }
       let (w, _) := w.awakeNext qu.notif
       w.doPostpone a fs
-  | .qGet q => w.acquireLock a (.gotValue :: fs) (w.queues.getD q default).mutex (.queueGet q)
+  | .qGet q => (w.emit a "getreq" [q]).acquireLock a (.gotValue :: fs) (w.queues.getD q default).mutex (.queueGet q)
   | .qClose q =>
     let qu := w.queues.getD q default
     let w := if !qu.closed then
@@ -362,12 +365,14 @@ def execStmt (w : World τ) (a : ActId) (fs : List (Frame τ)) : Stmt τ → Wor
   | .qIter q n body => w.retTo a (.qIterNext q n body :: fs) .unit
   | .cPut c v =>                                                       -- streams.py Channel.put
     let ch := w.chans.getD c default
-    if ch.closed then w.raiseNew a fs .streamClosed
+    let w := w.emit a "cputreq" [c, v]
+    if ch.closed then (w.emit a "cputrej" [c, v]).raiseNew a fs .streamClosed
     else
       let w := { w with chans := w.chans.modify c (fun x => { x with buffers := x.buffers.map (fun (b : Nat × List Int) => (b.1, b.2 ++ [v])) }) }
       (w.awakeAll ch.notif).doPostpone a fs
   | .cGet c =>                                                         -- streams.py Channel.__await__
     let ch := w.chans.getD c default
+    let w := w.emit a "csub" [c, 0]
     if ch.closed then w.raiseNew a fs .streamClosed
     else
       let key := ch.nextKey
@@ -381,13 +386,14 @@ def execStmt (w : World τ) (a : ActId) (fs : List (Frame τ)) : Stmt τ → Wor
     w.doPostpone a fs
   | .cIter c n body =>
     let ch := w.chans.getD c default
+    let w := w.emit a "csub" [c, 1]
     let key := ch.nextKey
     let w := { w with chans := w.chans.modify c (fun x => { x with buffers := x.buffers ++ [(key, [])], nextKey := key + 1 }) }
     w.retTo a (.cIterLoop c key n body :: fs) .unit
   | .setTracked x v => (w.setTrackedValue x v).doPostpone a fs
   | .addTracked x v => (w.setTrackedValue x ((w.tracked.getD x default).value + v)).doPostpone a fs
-  | .borrow r amounts bind body => w.borrowEnter a fs r amounts bind body false
-  | .claim r amounts bind body => w.borrowEnter a fs r amounts bind body true
+  | .borrow r amounts bind body => (w.emit a "breq" ((r : Int) :: amounts)).borrowEnter a (.borrowMark r :: fs) r amounts bind body false
+  | .claim r amounts bind body => (w.emit a "breq" ((r : Int) :: amounts)).borrowEnter a (.borrowMark r :: fs) r amounts bind body true
   | .resChange r kind amounts =>                                       -- resource.py Resources.set/increase/decrease
     match lookup w.resNames r with
     | none => (w.emit a "unbound" []).retTo a fs .unit
@@ -406,6 +412,8 @@ def execStmt (w : World τ) (a : ActId) (fs : List (Frame τ)) : Stmt τ → Wor
     | some rid => (w.emit a "levels" (w.res.getD rid default).levels).retTo a fs .unit
   | .transfer p total throughput =>                                    -- pipe.py Pipe.transfer / UnboundedPipe.transfer
     let pp := w.pipes.getD p default
+    let fs := .transferDone p :: fs
+    let w := w.emit a "tstart" [p]
     if w.cfg.debug && (lt total (zero : τ) || (match throughput with | some t => !(gt t (zero : τ)) | none => false)) then
       w.raiseNew a fs (.assertion 5)
     else match pp.throughput with
@@ -482,6 +490,7 @@ def stepRet (w : World τ) (a : ActId) (f : Frame τ) (fs : List (Frame τ)) (v 
     let w := subs.reverse.foldl (fun w (p : CondId × SigId) => (w.unsubscribe p.1 a p.2).1) w
     w.retTo a (.connStart c :: fs) .unit
   | .retTrue => w.retTo a fs (.bool true)
+  | .awaitMark c => (w.emit a "awaited" [if w.eval c then 1 else 0]).retTo a fs .unit
   | .taskResult t quiet =>
     match (w.task t).result with
     | some (v, none) => (if quiet then w else w.emit a "taskret" [v]).retTo a fs (.int v)
@@ -516,7 +525,8 @@ def stepRet (w : World τ) (a : ActId) (f : Frame τ) (fs : List (Frame τ)) (v 
   | .scopeClose s todo reason volDone orig graceful => w.continueClose a fs s todo reason volDone orig graceful
   | .tryBlock _ => w.retTo a fs .unit
   | .lockWait l cont => w.lockAcquired a fs l cont
-  | .lockBody l =>                                                     -- locks.py Lock.__aexit__
+  | .lockBody l user =>                                                -- locks.py Lock.__aexit__
+    let w := if user then w.emit a "lexit" [l] else w
     let w := { w with locks := w.locks.modify l (fun x => { x with depth := x.depth - 1 }) }
     let w := if (w.locks.getD l default).depth == 0 then w.lockRelease l else w
     w.retTo a fs v
@@ -551,7 +561,7 @@ def stepRet (w : World τ) (a : ActId) (f : Frame τ) (fs : List (Frame τ)) (v 
         let w := { w with chans := w.chans.modify c (fun y => { y with buffers := y.buffers.map (fun (b : Nat × List Int) => if b.1 == key then (b.1, rest) else b) }) }
         (w.emit a "got" [x]).retTo a (.seq body :: .cIterLoop c key (rem - 1) body :: fs) .unit
       | [] =>
-        if ch.closed then (dereg w).retTo a fs .unit
+        if ch.closed then ((dereg w).emit a "cend" [c]).retTo a fs .unit
         else w.doNotifAwait a (.cIterWait c key rem body :: fs) ch.notif
   | .cIterWait c key rem body => w.retTo a (.cIterLoop c key rem body :: fs) .unit
   | .borrowWait r b body =>
@@ -561,7 +571,7 @@ def stepRet (w : World τ) (a : ActId) (f : Frame τ) (fs : List (Frame τ)) (v 
   | .borrowRemoved r b body =>
     let bs := w.res.getD b default
     (w.setLevels b (vecAdd bs.levels bs.debits)).doPostpone a (.borrowInserted r b body :: fs)
-  | .borrowInserted r b body => w.retTo a (.seq body :: .borrowBody r b :: fs) .unit
+  | .borrowInserted r b body => (w.emit a "benter" (w.res.getD b default).debits).retTo a (.seq body :: .borrowBody r b :: fs) .unit
   | .borrowBody r b =>                                                 -- BorrowedResources.__aexit__, no exception
     let bs := w.res.getD b default
     (w.setLevels b (vecSub bs.levels bs.debits)).doPostpone a (.borrowExit1 r b none :: fs)
@@ -595,6 +605,8 @@ def stepRet (w : World τ) (a : ActId) (f : Frame τ) (fs : List (Frame τ)) (v 
       | some t => w.doCondAwait a (.taskResult t true :: .collectAwait rest acc :: fs) (w.task t).done
       | none => w.retTo a (.collectAwait rest acc :: fs) .unit
   | .nestedRun => w.retTo a fs .unit
+  | .transferDone p => (w.emit a "tdone" [p]).retTo a fs .unit
+  | .borrowMark r => (w.emit a "bexit" [r, 0]).retTo a fs .unit
   | .asyncTrigger c => (w.awakeAll c).retTo a fs .unit
   | .coroutineEnd => w.finishAct a (.ret v)
 
@@ -619,7 +631,7 @@ def stepRaise (w : World τ) (a : ActId) (f : Frame τ) (fs : List (Frame τ)) (
         let sw := sw || (w.sig q.2).exn == e
         ((w.unsubscribe q.1 a q.2).1, sw)) (w, false)
     if swallowed then w.retTo a (.connStart c :: fs) .unit else w.raiseTo a fs e
-  | .retTrue => w.raiseTo a fs e
+  | .retTrue | .awaitMark _ => w.raiseTo a fs e
   | .taskResult _ _ => w.raiseTo a fs e
   | .taskStart t _ _ _ | .taskDelay t _ | .taskPayload t =>            -- task.py:137-157
     match w.exn e with
@@ -645,7 +657,7 @@ def stepRaise (w : World τ) (a : ActId) (f : Frame τ) (fs : List (Frame τ)) (
       | _ => w
     w.beginClose a fs s (some e) false
   | .scopeExitSet s | .scopeExitWait s _ => w.beginClose a fs s (some e) true
-  | .scopeClose .. => w.raiseTo a fs e
+  | .scopeClose s .. => (w.emitScope a s "sexit" [(w.scope s).name, (w.scope s).inst, 1]).raiseTo a fs e
   | .tryBlock handlers =>
     match handlers.find? (fun h => h.1.any (fun p => patMatches p (w.exn e))) with
     | some h => (w.emit a "caught" (w.exnCode e)).retTo a (.seq h.2 :: fs) .unit
@@ -653,7 +665,8 @@ def stepRaise (w : World τ) (a : ActId) (f : Frame τ) (fs : List (Frame τ)) (
   | .lockWait l _ =>                                                   -- locks.py:66-71
     let w := if (w.locks.getD l default).owner == some a then w.lockRelease l else w
     w.raiseTo a fs e
-  | .lockBody l =>
+  | .lockBody l user =>
+    let w := if user then w.emit a "lexit" [l] else w
     let w := { w with locks := w.locks.modify l (fun x => { x with depth := x.depth - 1 }) }
     let w := if (w.locks.getD l default).depth == 0 then w.lockRelease l else w
     w.raiseTo a fs e
@@ -669,6 +682,8 @@ def stepRaise (w : World τ) (a : ActId) (f : Frame τ) (fs : List (Frame τ)) (
     ({ w with chans := w.chans.modify c (fun x => { x with buffers := x.buffers.filter (·.1 != key) }) }).raiseTo a fs e
   | .borrowWait .. | .borrowRemoved .. | .borrowInserted .. | .borrowExit1 .. | .borrowExit2 _
   | .resAdjust .. | .tickWait .. | .tickBody .. | .collectAwait .. | .nestedRun => w.raiseTo a fs e
+  | .transferDone p => (w.emit a "tabort" [p]).raiseTo a fs e
+  | .borrowMark r => (w.emit a "bexit" [r, 1]).raiseTo a fs e
   | .borrowBody r b =>                                                 -- BorrowedResources.__aexit__ with an exception
     let bs := w.res.getD b default
     if w.exn e == .genExit then
